@@ -27,7 +27,7 @@ def run(chk):
                                                                               "inter": rnd.choice([0, 0, 1, 3])}]}})
     out = cl.run_scenarios(binary, sc + rand, wd, "c18")
     outs, ifl, pfl = cl.validate(chk, out, wd, "c18", shard=800)
-    cl.report(chk, outs, ifl, pfl, {"P18"}, WHAT)
+    cl.report(chk, outs, ifl, pfl, {"P18", "abnormal"}, WHAT)
     chk.cov["traces_validated_against_impl"] = len(outs)
     chk.cov["evaluations"] = len(outs)
     chk.cov["distinct_nontrivial"] = len(sc)
